@@ -258,8 +258,10 @@ def invalid_item(draw):
         it["other"] = draw(st.sampled_from(others))
         it["which"] = draw(st.sampled_from(["X", "y"]))
     if kind == "unsupported_dtype":
-        pool = ["bool", "complex128", "float16", "object"]
-        pool += ["uint8", "uint16", "uint32", "uint64"] if kernel != "hamming" else ["float32", "float64"]
+        pool = ["complex128", "float16", "object"]
+        # bool buffers are accepted by the Hamming kernel (as uint8, with correct results), so bool is "unsupported"
+        # only for the two arithmetic kernels
+        pool += ["bool", "uint8", "uint16", "uint32", "uint64"] if kernel != "hamming" else ["float32", "float64"]
         it["other"] = draw(st.sampled_from(pool))
     if kind == "out_dtype":
         it["other"] = draw(st.sampled_from(["float32", "int64", "float16", "complex128", "uint8"]))
